@@ -42,7 +42,7 @@ class ClockAndHistory(Harness):
     nontrivial_event = "a fill, a cancel or an expiry changed series values during the run"
     reach = ("nontrivial", "chunk-crossed", "fill", "cancel", "shock", "future-query-refused", "drift-changed", "mid-step-read")
     bounds = {
-        "quick": "session layouts [[4]], [[2],[3]], [[1],[2],[1]], [[7]] steps; 1-2 markets (+ index market); storage and "
+        "quick": "session layouts [[4]], [[2],[3]], [[1],[2],[1]], [[7]] steps; 1-2 markets (+ index market, also with trades on its component); storage and "
                  "generation chunks shrunk to 3 steps (public instance attributes); a buyer and a seller quoting in steps "
                  "0-2 at solver-chosen prices (ttl 1; the buyer cancels or re-quotes at t=1), a fundamental shock at t=1 and "
                  "a drift change at t=2",
@@ -60,6 +60,7 @@ class ClockAndHistory(Harness):
             out.append({"layout": layout, "M": 1, "index": False, "agents": True, "chunk": 3})
         out.append({"layout": [[7]], "M": 1, "index": False, "agents": False, "chunk": 3})
         out.append({"layout": [[2], [3]], "M": 2, "index": True, "agents": False, "chunk": 3})
+        out.append({"layout": [[4]], "M": 1, "index": True, "agents": True, "chunk": 3})
         if tier == "thorough":
             out.append({"layout": [[4]], "M": 2, "index": False, "agents": True, "chunk": 3, "light": True})
             out.append({"layout": [[120], [85]], "M": 2, "index": True, "agents": False, "chunk": 100})
@@ -182,6 +183,11 @@ class _Watch:
             alt = getattr(m, name)(range(now + 1))
             g.require(len(alt) == len(vals) and all(bool(_eq(a, b)) for a, b in zip(alt, vals)), "C06.series-forms-differ")
         cur["vwap"] = [m.get_vwap(t) for t in range(now + 1)]
+        from pams.index_market import IndexMarket as _IM
+        if isinstance(m, _IM):
+            # the index values reported for every time so far (recomputed from the components' recorded prices)
+            for name in ("get_index", "get_market_index", "compute_market_index", "get_fundamental_index"):
+                cur["index:" + name] = [getattr(m, name)(t) for t in range(now + 1)]
         for name in SCALARS[:-1]:
             sv = getattr(m, name)(now)
             g.require(_eq(sv, cur["get_" + name[4:] + "s"][now]), "C06.scalar!=series", name)
@@ -244,7 +250,7 @@ class _Watch:
         for m in sim.markets:
             g.require(m.get_time() == self.total, "C06.clock")
             for name, vals in self.snap[m.name].items():
-                if name == "vwap":
+                if name == "vwap" or name.startswith("index:"):
                     continue
                 now_vals = getattr(m, name)(range(len(vals)))
                 for tt, v in enumerate(vals):
